@@ -638,12 +638,16 @@ class electrical_signal():
             signal = str2array(signal)
         else: 
             signal = np.array(signal, dtype=dtype)
+        if signal.dtype == bool and dtype is None:
+            signal = signal.astype(int) # 0/1 text and booleans are the numbers 0 and 1 (numpy's bool arithmetic is logical)
         
         if noise is not None:
             if isinstance(noise, str):
                 noise = str2array(noise)
             else: 
                 noise = np.array(noise, dtype=dtype)
+            if noise.dtype == bool and dtype is None:
+                noise = noise.astype(int)
             
             if dtype is None:
                 arrays_type = np.result_type(signal, noise) # obtain the most comprehensive type
@@ -1407,12 +1411,16 @@ class optical_signal(electrical_signal):
             signal = str2array(signal)
         else:
             signal = np.array(signal, dtype=dtype)
+        if signal.dtype == bool and dtype is None:
+            signal = signal.astype(int) # 0/1 text and booleans are the numbers 0 and 1 (numpy's bool arithmetic is logical)
 
         if noise is not None:
             if isinstance(noise, str):
                 noise = str2array(noise)
             else:
                 noise = np.array(noise, dtype=dtype)
+            if noise.dtype == bool and dtype is None:
+                noise = noise.astype(int)
 
             if dtype is None:
                 arrays_type = np.result_type(signal, noise) # obtain the most comprehensive type
